@@ -8,5 +8,5 @@ S=$(mktemp -d /var/tmp/hmclab_baseline.XXXXXX)
 trap 'rm -rf "$S"' EXIT
 rsync -a --exclude .git /repo/ "$S/repo/"
 J="${1:-$S/junit.xml}"
-( cd "$S/repo" && /venv/bin/python -m pytest -ra -q -p no:cacheprovider --timeout=900 --continue-on-collection-errors --junitxml="$J" 2>&1 | tail -8 )
+( cd "$S/repo" && OMP_NUM_THREADS=2 OPENBLAS_NUM_THREADS=2 /venv/bin/python -m pytest -ra -q -p no:cacheprovider --timeout=900 --continue-on-collection-errors --junitxml="$J" 2>&1 | tail -8 )
 python3 /verif/tools/baseline_compare.py "$J" /root/.vp/BASELINE.json
